@@ -52,6 +52,8 @@ func c12(r *core.Run) {
 	r.Undecided = []string{"arithmetic of the trip-count formula ((limit-start+step-1)/step etc.)", "integer wrap-around of narrow induction variables", "agreement on concrete argument vectors (runtime)"}
 
 	c12Classifier(r, true)
+	// the summary that reaches the IR is the one that was derived: start before step, operands through the renamer
+	r.Under("C02.NONAME", "C12.RENDER", func() { c02RenamerThreaded(r) })
 }
 
 func c12Classifier(r *core.Run, withTrip bool) {
@@ -401,6 +403,10 @@ func c12Trip(r *core.Run, fn *ssa.Function) {
 				return false, false
 			}
 			if k, isC := core.ConstInt(y); !isC || k != 1 {
+				return false, false
+			}
+			// exactly one: == 1 (or != 1 rejecting); an order test such as < 1 lets two exits through
+			if op != token.EQL && op != token.NEQ {
 				return false, false
 			}
 			return true, op == token.EQL
